@@ -216,3 +216,59 @@ Proof.
     split; [apply A_of_B; [intros n; discriminate|exact HB]|exact HB].
 Qed.
 
+
+(* the fuel of parse_path suffices: a path has no more nodes than its text has tokens (+1) *)
+Definition sum_len (l:list (list tok)) : nat := fold_right (fun x n => length x + n) 0 l.
+Lemma join_len_ge sep l : sum_len l <= length (join sep l).
+Proof.
+  induction l as [|x r IH]; [simpl; lia|]. rewrite join_cons. rewrite app_length. cbn [sum_len fold_right].
+  fold (sum_len r). destruct r as [|y r']; [simpl; lia|]. rewrite join_cons in IH. cbn [flat_map].
+  rewrite app_length in IH. simpl. rewrite app_length. cbn [sum_len fold_right] in IH. fold (sum_len r') in IH.
+  cbn [sum_len fold_right]. fold (sum_len r'). lia.
+Qed.
+
+Lemma size_le_tokens p : psize p <= length (print false p) /\ psize p <= length (print true p) + 1.
+Proof.
+  induction p as [pr|q IH|qs IH|qs IH|q IH|q IH|q IH] using path_ind'.
+  - simpl. lia.
+  - destruct IH as [I1 _]. cbn [print wrap psize]. simpl. rewrite app_length. simpl. lia.
+  - rewrite psize_seq, !print_seq. cbn [wrap]. simpl. rewrite app_length. simpl.
+    assert (HS : sum_size qs <= sum_len (map (print false) qs)).
+    { induction IH as [|q r [Hq _] _ IHr]; [simpl; lia|]. rewrite sum_size_cons. cbn [map sum_len fold_right].
+      fold (sum_len (map (print false) r)). lia. }
+    pose proof (join_len_ge TSlash (map (print false) qs)) as HJ.
+    lia.
+  - rewrite psize_alt, !print_alt. cbn [wrap]. simpl. rewrite app_length. simpl.
+    assert (HS : sum_size qs <= sum_len (map (print false) qs)).
+    { induction IH as [|q r [Hq _] _ IHr]; [simpl; lia|]. rewrite sum_size_cons. cbn [map sum_len fold_right].
+      fold (sum_len (map (print false) r)). lia. }
+    pose proof (join_len_ge TBar (map (print false) qs)) as HJ.
+    lia.
+  - destruct IH as [I1 _]. cbn [print wrap psize]. simpl. rewrite !app_length. simpl. lia.
+  - destruct IH as [I1 _]. cbn [print wrap psize]. simpl. rewrite !app_length. simpl. lia.
+  - destruct IH as [I1 _]. cbn [print wrap psize]. simpl. rewrite !app_length. simpl. lia.
+Qed.
+
+(* the round trip: what the printer writes for a well-formed path is read back, by the SPARQL
+   grammar, as exactly that path *)
+Theorem print_parse p : wf_path p = true -> parse_path (print true p) = Some p.
+Proof.
+  intros Hwf. destruct (print_parse_AB p Hwf) as [_ HB]. unfold parse_path.
+  specialize (HB (8 * length (print true p) + 8) []). rewrite app_nil_r in HB.
+  rewrite HB; [reflexivity| |left; reflexivity].
+  destruct (size_le_tokens p) as [_ H]. lia.
+Qed.
+
+Corollary print_path_parse p ts : print_path p = Some ts -> parse_path ts = Some p.
+Proof.
+  unfold print_path. destruct (wf_path p) eqn:Hwf; cbn [andb]; [|discriminate].
+  destruct (shallow 12 p); [|discriminate]. intros H. injection H as <-. apply print_parse. exact Hwf.
+Qed.
+
+(* without the brackets of nested compound paths the statement is false: p+* is no SPARQL path *)
+Example stacked_modifiers_unparsable : parse_path [TIri 1%N; TPlus; TStar] = None /\ parse_path [TCaret; TCaret; TIri 1%N] = None.
+Proof. vm_compute. split; reflexivity. Qed.
+Example nested_now_bracketed :
+  print true (PStar (PPlus (PPred 1%N))) = [TL; TIri 1%N; TPlus; TR; TStar]
+  /\ print true (PInv (PInv (PPred 1%N))) = [TCaret; TL; TCaret; TIri 1%N; TR].
+Proof. vm_compute. split; reflexivity. Qed.
